@@ -41,6 +41,7 @@ package limiter
 //@ func (*ConcurrentLimiter).Handler
 //@   prop C17
 //@   havoc
+//@   modifies @NEXT_IO, ghost.chansent[l.tasks], ghost.chanlen[*], ghost.chanrecv[*]
 //@   requires l != nil && ghost.donechan[l.tasks] == 0
 //@   stable l.tasks
 //@   let held0 = ghost.chansent[l.tasks] - ghost.chanrecv[l.tasks]
@@ -82,6 +83,7 @@ package limiter
 //@ func (*RateLimiter).IOHandler
 //@   prop C17
 //@   havoc
+//@   modifies @NEXT_IO, ghost.chanrecv[*], ghost.chanlen[*]
 //@   requires l != nil && l.interval > 0.0 && l.maxPermits >= 0.0
 //@   ensures [at_most_one_call] ghost.fwd == old(ghost.fwd) || ghost.fwd == old(ghost.fwd) + 1
 //@   ensures [rejected_means_timeout_and_no_call] ghost.fwd == old(ghost.fwd) ==> err == core.ErrTimeout
@@ -91,6 +93,7 @@ package limiter
 //@ func (*RateLimiter).InvokeHandler
 //@   prop C17
 //@   havoc
+//@   modifies @NEXT_INVOKE, ghost.chanrecv[*], ghost.chanlen[*]
 //@   requires l != nil && l.interval > 0.0 && l.maxPermits >= 0.0
 //@   ensures [at_most_one_call] ghost.fwd == old(ghost.fwd) || ghost.fwd == old(ghost.fwd) + 1
 //@   ensures [rejected_means_timeout_and_no_call] ghost.fwd == old(ghost.fwd) ==> err == core.ErrTimeout
